@@ -345,3 +345,14 @@ Theorem C01_resize_is_the_list_resize :
                            exists k, (k <= Z.to_nat (n - L))%nat /\ l' = l ++ zseq (next_elem s) k)).
 Proof. exact resize_abs. Qed.
 Print Assumptions C01_resize_is_the_list_resize.
+
+(* the premise of the translator tie EquivResize.resize_equiv is met wherever the resize theorem applies *)
+Theorem C01_resize_body_never_runs_out_of_fuel :
+  forall cfg ncap, cfg_ok cfg -> policy_ok ncap -> needs_drop cfg = true ->
+  forall s v l value n,
+  vabs cfg s v l -> ledger s value = Live -> value < next_elem s -> ~ In value l ->
+  mem value (clone_panics s) = false ->
+  0 <= n -> n - Z.of_nat (List.length l) <= 1000000 ->
+  fst (resize_body cfg ncap v n value s) <> OutOfFuel.
+Proof. exact resize_body_fuel. Qed.
+Print Assumptions C01_resize_body_never_runs_out_of_fuel.
